@@ -44,11 +44,12 @@ def _find_func(tree, name, cls=None):
     raise ExtractionError(f"function {name} not found")
 
 
-def _events(fn, inline_nested: bool = False, returns: bool = False, strict: bool = True) -> list[str]:
+def _events(fn, inline_nested: bool = False, returns: bool = False, strict: bool = True, attrs: tuple = ()) -> list[str]:
     """name of every call and raise in the body of `fn` (not in nested defs), in evaluation-ish = source order;
     a call's arguments come before the call itself.  `inline_nested`: the body of a nested `def` is listed where it is defined
     (it cannot run earlier); `returns`: `return` statements are listed as "return"; `strict=False`: a call of something that is
-    not a dotted name is listed as "<expr>" instead of failing."""
+    not a dotted name is listed as "<expr>" instead of failing; `attrs`: reads of these attribute names (cached properties) are
+    listed too, as dotted names."""
     out = []
 
     def visit(node):
@@ -76,6 +77,10 @@ def _events(fn, inline_nested: bool = False, returns: bool = False, strict: bool
             return
         if isinstance(node, ast.Raise):
             out.append("raise")
+            return
+        if attrs and isinstance(node, ast.Attribute) and node.attr in attrs and isinstance(node.ctx, ast.Load):
+            visit(node.value)
+            out.append(_dotted(node) or "<expr>." + node.attr)
             return
         for child in ast.iter_child_nodes(node):
             visit(child)
@@ -106,6 +111,19 @@ EXTRA = [
     ("pipelineValidateMapspecCalls", "pipefunc/_pipeline/_base.py", "Pipeline", "_validate_mapspec", {"returns": True}),
     ("pipeFuncInitCalls", "pipefunc/_pipefunc.py", "PipeFunc", "__init__", {"returns": True}),
     ("pipeFuncValidateCalls", "pipefunc/_pipefunc.py", "PipeFunc", "_validate", {"returns": True}),
+    # round 3: what is re-validated lazily after an in-place edit, and that the update methods validate and clear the caches
+    ("pipelineGraphCalls", "pipefunc/_pipeline/_base.py", "Pipeline", "graph", {"returns": True, "strict": False}),
+    ("pipelineTopoCalls", "pipefunc/_pipeline/_base.py", "Pipeline", "topological_generations",
+     {"returns": True, "strict": False, "attrs": ("graph",)}),
+    ("pipelineRunCalls", "pipefunc/_pipeline/_base.py", "Pipeline", "run", {"returns": True, "strict": False}),
+    ("pipelineUpdateDefaultsCalls", "pipefunc/_pipeline/_base.py", "Pipeline", "update_defaults", {"returns": True, "strict": False}),
+    ("pipelineUpdateRenamesCalls", "pipefunc/_pipeline/_base.py", "Pipeline", "update_renames", {"returns": True, "strict": False}),
+    ("pipeFuncUpdateDefaultsCalls", "pipefunc/_pipefunc.py", "PipeFunc", "update_defaults", {"returns": True, "strict": False}),
+    ("pipeFuncUpdateBoundCalls", "pipefunc/_pipefunc.py", "PipeFunc", "update_bound", {"returns": True, "strict": False}),
+    ("pipeFuncUpdateRenamesCalls", "pipefunc/_pipefunc.py", "PipeFunc", "update_renames", {"returns": True, "strict": False}),
+    ("pipeFuncClearCacheCalls", "pipefunc/_pipefunc.py", "PipeFunc", "_clear_internal_cache", {"returns": True, "strict": False}),
+    ("validateCompleteInputsCalls", "pipefunc/map/_prepare.py", None, "_validate_complete_inputs",
+     {"returns": True, "strict": False, "attrs": ("topological_generations",)}),
 ]
 
 
